@@ -323,6 +323,54 @@ _IM_LIB = [dict(names=n, parent=p, parent_paths=pp, answer=a, builtin_fails=b)
            for a in ('file', 'package', 'missing', 'builtin', 'namespace')
            for b in ((False, True) if a == 'builtin' else (False,))]
 
+def _replay_py33(inp):
+    """a package directory that lacks the sub-module, whose name is importable at top level of the interpreter: the
+    sub-module lookup (path given) must fail like Python's does"""
+    from pyvc.replay import run_real
+    import tempfile
+    import shutil
+    import os as _os
+    from jedi.inference.compiled.subprocess import functions as fn
+    d = tempfile.mkdtemp(prefix='c10py33_', dir='/var/tmp')
+    try:
+        _os.makedirs(_os.path.join(d, 'pkg'))
+        open(_os.path.join(d, 'pkg', '__init__.py'), 'w').close()
+        open(_os.path.join(d, 'pkg', 'present.py'), 'w').close()
+        path = None if inp['path_none'] else [_os.path.join(d, 'pkg')]
+        out = run_real(lambda: fn._find_module(inp['name'], path, full_name=inp['name'] if path is None else 'pkg.' + inp['name'],
+                                               is_global_search=path is None))
+        if out['kind'] == 'return':
+            out['value'] = 'found'
+        elif out['cls'][0] == 'ImportError':
+            out = {'kind': 'return', 'value': 'ImportError'}
+        return {'EXPECT_FOUND': inp['found']}, out
+    finally:
+        shutil.rmtree(d, ignore_errors=True)
+
+
+_py33 = Contract(
+    id='C10._find_module_py33', prop='C10',
+    clause='a sub-module is looked up on the __path__ of its parent ONLY: the interpreter-wide fallback lookup '
+           '(importlib.util.find_spec by bare name, meant for builtin top-level modules) is never consulted when a search '
+           'path was given; no loader => ImportError (the import fails, as in Python)',
+    file='jedi/inference/compiled/subprocess/functions.py', qualname='_find_module_py33',
+    params={'string': STR, 'path': Opt(Seq(STR)), 'loader': Opt(Obj('Loader10')), 'full_name': ANY,
+            'is_global_search': BOOL},
+    families=['Loader10', 'Spec10'], ret=ANY,
+    effects_allowed=['path-lookup'], effect_guard={'interpreter-wide-lookup': 'path is None'},
+    raises={'ImportError': None},
+    ensures=['implies(path is not None and loader is None and (path_finder_spec(string, path) is None or '
+             'the(path_finder_spec(string, path)).loader is None), False)'],
+    witness={}, replay=_replay_py33, concrete_only=True,
+    witness_library=[{'name': 'textwrap', 'path_none': False, 'found': False},
+                     {'name': 'json', 'path_none': False, 'found': False},
+                     {'name': 'present', 'path_none': False, 'found': True},
+                     {'name': 'textwrap', 'path_none': True, 'found': True}],
+    concrete_ensures=['(result == "found") == EXPECT_FOUND'],
+    notes='importlib finders are abstract; the normal-exit clause says: with a search path and no loader from the path '
+          'finder there is no normal exit',
+)
+
 _IS10 = Obj('IS10')
 
 _import_module10 = Contract(
@@ -420,6 +468,8 @@ FAMILIES = [
                                'import_path': Seq(ANY)}),
     Family('InfState10', attrs={'project': Obj('Project10')}),
     Family('IS10', attrs={'compiled_subprocess': Obj('Sub10')}),
+    Family('Spec10', attrs={'loader': Opt(Obj('Loader10'))}),
+    Family('Loader10'),
     Family('Sub10', methods={'get_module_info': FnSpec(
         'compiled_subprocess.get_module_info',
         params=[('string', STR), ('full_name', STR), ('sys_path', Opt(Seq(STR))), ('is_global_search', BOOL),
@@ -457,7 +507,7 @@ FAMILIES = [
     }),
 ]
 
-CONTRACTS = [_iter_solutions, _transform, _importer_init, _prepare, _import_module10, _infer_import]
+CONTRACTS = [_iter_solutions, _transform, _importer_init, _prepare, _import_module10, _infer_import, _py33]
 
 
 def register(reg):
@@ -473,6 +523,18 @@ def register(reg):
     reg.names['_add_error'] = FnSpec('_add_error', params=[('ctx', Obj('ModCtx')), ('name', ANY), ('message', STR)],
                                      ret=None, assumed=True, note='analysis diagnostics, no effect on resolution')
     reg.names['dirname_or'] = FnSpec('dirname_or', impl=_dirname_or)
+    from pyvc.values import MNS as _NS, MFn as _MF
+    _pf = FnSpec('path_finder_spec', params=[('name', STR), ('path', Opt(Seq(STR)))], ret=Opt(Obj('Spec10')), pure=True,
+                 assumed=True, effects=['path-lookup'], note='importlib.machinery.PathFinder.find_spec (the oracle)')
+    _gf = FnSpec('importlib.util.find_spec', params=[('name', STR)], ret=Opt(Obj('Spec10')), pure=True, assumed=True,
+                 effects=['interpreter-wide-lookup'], raises=['ValueError'],
+                 note='interpreter-wide lookup by bare name (sys.modules, meta path): only meaningful for top-level names')
+    reg.names['path_finder_spec'] = _pf
+    reg.names['importlib'] = _NS('importlib', {
+        'machinery': _NS('importlib.machinery', {'PathFinder': _NS('PathFinder', {'find_spec': _MF('spec', 'path_finder_spec', spec=_pf)})}),
+        'util': _NS('importlib.util', {'find_spec': _MF('spec', 'importlib.util.find_spec', spec=_gf)})})
+    reg.names['_from_loader'] = FnSpec('_from_loader', params=[('loader', Obj('Loader10')), ('string', STR)], ret=ANY,
+                                       pure=True, assumed=True, raises=['ImportError'])
     from pyvc.values import MCls
     import pyvc.types as T
     reg.names['_load_builtin_module'] = FnSpec(
